@@ -341,3 +341,77 @@ package circuitbreaker
 //@   ensures[each-once-in-order] gDoneN == n0 + len(cbs) && (forall j Int :: n0 <= j && j < gDoneN ==> sel(gDoneRecv, j) == dynptr(cbs[j - n0]) && sel(gDoneErr, j) == old(ctx.err))
 //@   loop 1:
 //@     invariant gDoneN == n0 + #i && (forall j Int :: n0 <= j && j < gDoneN ==> sel(gDoneRecv, j) == dynptr(cbs[j - n0]) && sel(gDoneErr, j) == old(ctx.err))
+
+// ---- C13: whole-set load. The grouping loop must cope with any element, including nil; the rebuild itself
+// (onRuleUpdate) is under a separate contract.
+//@ func onRuleUpdate(rawResRulesMap) err
+//@   assumed
+//@ func LoadRules(rules) (changed, err)
+//@   props C13
+//@   panics never
+//@   witness n = len(rules)
+//@   replay loadrules_nil
+
+// ---- C13: per-resource load
+//@ spec func validRule(r) = r != nil && len(r.Resource) > 0 && r.StatIntervalMs > 0 && r.RetryTimeoutMs > 0 && r.Threshold >= 0.0 && !(r.Strategy == SlowRequestRatio && r.Threshold > 1.0) && !(r.Strategy == ErrorRatio && r.Threshold > 1.0)
+
+//@ func IsValidRule(r) err
+//@   props C13
+//@   ensures[iff] err == nil <==> validRule(r)
+//@   modifies nothing
+
+// only rules that passed the validity check may reach the breaker builder
+//@ func BuildResourceCircuitBreaker(res, rulesOfRes, oldResCbs) r
+//@   assumed
+//@   requires[all-valid] forall k Int :: 0 <= k && k < len(rulesOfRes) ==> validRule(rulesOfRes[k])
+//@   ensures len(r) == 0 || fresh(base(r))
+//@   modifies elems(oldResCbs)
+
+//@ func onResourceRuleUpdate(res, rawResRules) err
+//@   props C13
+//@   requires breakers != nil && breakerRules != nil && currentRules != nil && breakerRules != currentRules && ref(breakers) != ref(breakerRules) && ref(breakers) != ref(currentRules)
+//@   let n = len(rawResRules)
+//@   let pick = seqof(k, 0 <= k && k < len(rawResRules) && validRule(rawResRules[k]))
+//@   ensures[reported-are-the-valid-ones] err == nil && has(breakers, res) ==> len(breakerRules[res]) == countTrue(pick, n) && (forall k Int :: 0 <= k && k < n && sel(pick, k) ==> breakerRules[res][countTrue(pick, k)] == rawResRules[k])
+//@   ensures[other-resources-untouched] forall s Str :: s != res ==> has(breakers, s) == old(has(breakers, s)) && breakers[s] == old(breakers[s]) && breakerRules[s] == old(breakerRules[s])
+//@   witness n = len(rawResRules)
+//@   replay cb_invalid_rule_enforced
+//@   loop 1:
+//@     invariant[length] len(validResRules) == countTrue(pick, #i) && fresh(base(validResRules)) && 0 <= countTrue(pick, #i)
+//@     invariant[positions] forall k Int :: 0 <= k && k < #i && sel(pick, k) ==> 0 <= countTrue(pick, k) && countTrue(pick, k) < len(validResRules)
+//@     invariant[placed] forall k Int :: 0 <= k && k < #i && sel(pick, k) ==> validResRules[countTrue(pick, k)] == rawResRules[k]
+//@     invariant[all-valid] forall j Int :: 0 <= j && j < len(validResRules) ==> validRule(validResRules[j])
+//@     invariant[frame] frame()
+
+// ---- C14: which old breaker is kept for a reloaded rule
+//@ spec func baseEq(a, b) = b != nil && a.Resource == b.Resource && a.Strategy == b.Strategy && a.RetryTimeoutMs == b.RetryTimeoutMs && a.MinRequestAmount == b.MinRequestAmount && a.StatIntervalMs == b.StatIntervalMs && a.StatSlidingWindowBucketCount == b.StatSlidingWindowBucketCount && a.ProbeNum == b.ProbeNum
+//@ spec func thrEq(a, b) = abs(a.Threshold - b.Threshold) < util.precision
+//@ spec func eqRule(a, b) = baseEq(a, b) && ((b.Strategy == SlowRequestRatio && a.MaxAllowedRtMs == b.MaxAllowedRtMs && thrEq(a, b)) || (b.Strategy == ErrorRatio && thrEq(a, b)) || (b.Strategy == ErrorCount && thrEq(a, b)))
+//@ spec func statReusable(a, b) = b != nil && a.Resource == b.Resource && a.Strategy == b.Strategy && a.StatIntervalMs == b.StatIntervalMs && a.StatSlidingWindowBucketCount == b.StatSlidingWindowBucketCount
+
+//@ func (r *Rule) isEqualsTo(newRule) res
+//@   props C14
+//@   requires r != nil
+//@   ensures[def] res <==> eqRule(r, newRule)
+//@   ensures[identical-rules-are-equal] baseEq(r, newRule) && r.MaxAllowedRtMs == newRule.MaxAllowedRtMs && r.Threshold == newRule.Threshold && (newRule.Strategy == SlowRequestRatio || newRule.Strategy == ErrorRatio || newRule.Strategy == ErrorCount) ==> res
+//@   modifies nothing
+
+//@ func (r *Rule) isStatReusable(newRule) res
+//@   props C14
+//@   requires r != nil
+//@   ensures[def] res <==> statReusable(r, newRule)
+//@   modifies nothing
+
+//@ func calculateReuseIndexFor(r, oldResCbs) (equalIdx, reuseStatIdx)
+//@   props C14
+//@   requires forall j Int :: 0 <= j && j < len(oldResCbs) ==> oldResCbs[j] != nil && oldResCbs[j].BoundRule() != nil
+//@   let n = len(oldResCbs)
+//@   ensures[ranges] 0 - 1 <= equalIdx && equalIdx < n && 0 - 1 <= reuseStatIdx && reuseStatIdx < n
+//@   ensures[first-equal] equalIdx >= 0 ==> eqRule(oldResCbs[equalIdx].BoundRule(), r) && (forall j Int :: 0 <= j && j < equalIdx ==> !eqRule(oldResCbs[j].BoundRule(), r))
+//@   ensures[none-equal] equalIdx < 0 ==> (forall j Int :: 0 <= j && j < n ==> !eqRule(oldResCbs[j].BoundRule(), r))
+//@   ensures[first-stat-reusable] reuseStatIdx >= 0 ==> statReusable(oldResCbs[reuseStatIdx].BoundRule(), r) && (forall j Int :: 0 <= j && j < reuseStatIdx ==> !statReusable(oldResCbs[j].BoundRule(), r))
+//@   modifies nothing
+//@   loop 1:
+//@     invariant[no-equal-yet] equalIdx == 0 - 1 && (forall j Int :: 0 <= j && j < #i ==> !eqRule(oldResCbs[j].BoundRule(), r))
+//@     invariant[stat-idx] 0 - 1 <= reuseStatIdx && reuseStatIdx < #i && (reuseStatIdx >= 0 ==> statReusable(oldResCbs[reuseStatIdx].BoundRule(), r) && (forall j Int :: 0 <= j && j < reuseStatIdx ==> !statReusable(oldResCbs[j].BoundRule(), r)))
+//@     invariant[no-stat-yet] reuseStatIdx < 0 ==> (forall j Int :: 0 <= j && j < #i ==> !statReusable(oldResCbs[j].BoundRule(), r))
